@@ -174,8 +174,10 @@ def run(P, R, tier):
         R.check(ok, 'C10.b', F, over, 'overwrite removal dominates every makedirs',
                 'a makedirs can run before the overwrite removal: the new placeholder directories are deleted or old files survive')
     # (2) placeholder removed before the write of the same path; (3) read before delete
-    writers = [g for g, k in helpers.values() if any(x.startswith('open:w') for x in k)]
-    readers = [g for g, k in helpers.values() if 'ls' in k and g not in rm_helpers and not any(x.startswith('open:w') for x in k)]
+    def _writes(k):
+        return any(x.startswith('open:') and not x.startswith('open:r') for x in k)
+    writers = [g for g, k in helpers.values() if _writes(k)]
+    readers = [g for g, k in helpers.values() if 'ls' in k and g not in rm_helpers and not _writes(k)]
     w_nodes = []
     for c in calls_to(task, writers):
         if any(isinstance(a, ast.Name) and a.id == out_p for a in c.args):
@@ -197,7 +199,7 @@ def run(P, R, tier):
     # (4) metadata files on every path to the return; return = read_parquet_dask(path, ...)
     meta_writers = {}
     for name, (g, k) in helpers.items():
-        if any(x.startswith('open:w') for x in k):
+        if _writes(k):
             for c in astq.own_calls(g):
                 if astq.fs_call(c) == 'open':
                     t = astq.template(g, c.args[0]) if c.args else None
